@@ -10,17 +10,19 @@ from . import common as C
 
 
 class Case:
-    __slots__ = ("kind", "ops", "oracle", "key", "impl", "model", "crash")
+    __slots__ = ("kind", "ops", "oracle", "key", "impl", "model", "crash", "raw")
 
     def __init__(self, kind, ops, oracle=None, key=None):
         self.kind, self.ops, self.oracle = kind, ops, oracle
         self.key = key if key is not None else (kind, tuple(ops))
-        self.impl = self.model = None
+        self.impl = self.model = self.raw = None
         self.crash = None
 
 
 def san_site(stderr):
     """Condense a sanitizer report into a short site signature."""
+    if "HANG: no completion" in stderr and "Sanitizer" not in stderr:
+        return "hang", "timeout"
     m = re.search(r"(AddressSanitizer|UndefinedBehaviorSanitizer|ThreadSanitizer|LeakSanitizer)[: ]+([^\n]*)", stderr)
     kind = (m.group(2).split(" on ")[0].strip() if m else "abort")[:80]
     m2 = re.search(r"runtime error: ([^\n]*)", stderr)
@@ -35,7 +37,7 @@ def san_site(stderr):
     return kind, fn
 
 
-def run_batch(cmd, cases, timeout=300, env=None, per_case_reset=None):
+def run_batch(cmd, cases, timeout=300, env=None, per_case_reset=None, max_restarts=8):
     """Run all ops of `cases` through one process; on a crash/timeout, attribute it to the case
     whose output is incomplete, mark that case, and continue with the following cases in a fresh
     process.  Sets case.<attr> lists via the returned dict {case_index: lines}."""
@@ -43,14 +45,18 @@ def run_batch(cmd, cases, timeout=300, env=None, per_case_reset=None):
     crashes = {}
     start = 0
     guard = 0
-    while start < len(cases) and guard < 50:
+    while start < len(cases) and guard < max_restarts:
         guard += 1
         lines = []
         for c in cases[start:]:
             if per_case_reset:
                 lines.append(per_case_reset)
             lines.extend(c.ops)
-        rc, o, e = C.run_lines(cmd, lines, timeout=timeout, env=env)
+        # a hang must not cost the whole budget: scale the limit with the amount of work
+        tmo = min(timeout, 20 + 0.02 * len(lines))
+        rc, o, e = C.run_lines(cmd, lines, timeout=tmo, env=env)
+        if rc == -999:
+            e += "\nHANG: no completion within %.0f s (deadlock or livelock)" % tmo
         pos = 0
         done = start
         for i in range(start, len(cases)):
@@ -87,6 +93,7 @@ def differential(ctx, impl_cmd, model_cmd, cases, timeout=300, env=None, label="
     for i, c in enumerate(cases):
         c.impl = iout.get(i)
         c.model = mout.get(i)
+        raw = c.raw = c.impl
         if canon and c.impl is not None:
             c.impl = [canon(x) for x in c.impl]
         ctx.case(c.key)
@@ -100,7 +107,7 @@ def differential(ctx, impl_cmd, model_cmd, cases, timeout=300, env=None, label="
             continue
         if c.oracle:
             try:
-                msg = c.oracle(c.impl)
+                msg = c.oracle(raw)      # the oracle sees the implementation's lines as printed
             except Exception as ex:  # malformed output is an oracle failure too
                 msg = "oracle could not read output %r: %r" % (c.impl[:3], ex)
             if msg:
